@@ -157,6 +157,9 @@ Definition retryable (m : str) : bool := negb (str_eqb m s_POST).
 (* The scripted origin is a little realistic: it answers 304 only to a conditional request;
    an unconditional one gets a small complete 200 instead. *)
 Definition s_unconditional : str := bytes "unconditional"%string.
+Definition s_echo_url : str := bytes "@echo-url"%string.
+Definition echo_body (u : str) : str := bytes "generated for "%string ++ u.
+
 Definition origin_answer (d : dlv) (b : behaviour) : behaviour :=
   match b with
   | BResp r =>
@@ -164,6 +167,8 @@ Definition origin_answer (d : dlv) (b : behaviour) : behaviour :=
        && negb (nonempty (hget (d_hdrs d) (bytes "If-None-Match"%string)))
        && negb (nonempty (hget (d_hdrs d) (bytes "If-Modified-Since"%string)))
     then BResp (mkResp 200 [(bytes "Content-Type"%string, [bytes "text/plain"%string]); (bytes "Content-Length"%string, [bytes "13"%string])] s_unconditional)
+    else if str_eqb (rs_body r) s_echo_url
+    then BResp (mkResp (rs_status r) (rs_hdrs r) (echo_body (d_url d)))   (* a resource whose content names the URL asked for *)
     else b
   | BErr => b
   end.
